@@ -172,6 +172,7 @@ def sweep(ctx):
     from hugr.package import Package
 
     pkg = Package([], [])
+    ctx.feat("feature:empty-package")   # the empty package is what every pair of this sweep decodes
     plain = pkg._to_serial().model_dump_json().encode()
     comp = pyzstd.compress(plain)
     want = pkg_docs(pkg)
@@ -190,7 +191,9 @@ def sweep(ctx):
             except Exception as e:  # noqa: BLE001
                 got = (type(e).__name__,)
             exp = ("ok", f, bool(g & 1)) if f in known else ("ValueError",)
-            if got != exp:
+            # only the two flag bytes an encoder writes (0x40 / 0x41) are defined by the statement; for the others a
+            # decoder may either read bit 0 or refuse
+            if got != exp and not (f in known and g not in (0x40, 0x41) and got == ("ValueError",)):
                 ctx.disc(None, "header-decode", case, exp, got, stratum="sweep", case=case)
             ctx.count("monitor:sweep-read")
             try:
@@ -201,7 +204,7 @@ def sweep(ctx):
             except Exception as e:  # noqa: BLE001
                 got = (type(e).__name__,)
             exp = ("ok", True) if f == 63 else ("ValueError",)
-            if got != exp:
+            if got != exp and not (f == 63 and g not in (0x40, 0x41) and got == ("ValueError",)):
                 ctx.disc(None, "read-envelope", case, exp, got, stratum="sweep", case=case)
     if ctx.shard == 0:
         good = MAGIC + bytes([63, 0x40]) + plain
